@@ -80,6 +80,12 @@ pub fn outcome_json(spec: &Spec, out: &Outcome, with_obs: bool, with_orders: boo
         clock_reads += log.clock_reads;
         pid_reads += log.pid_reads;
     }
+    if out.overlap_faults > 0 {
+        *fired.entry("overlapping_launch_stalled".to_owned()).or_insert(0) += out.overlap_faults;
+    }
+    if out.crash_faults > 0 {
+        *fired.entry("history_prior_crash".to_owned()).or_insert(0) += out.crash_faults;
+    }
     if out.history_faults > 0 {
         *fired.entry("history_prior_edit".to_owned()).or_insert(0) += out.history_faults;
     }
